@@ -200,7 +200,8 @@ func c14EvalVia(v []int) (string, string, bool) {
 
 func c14NAText(s *EnumSpec, v []int) string {
 	uri := map[string]string{"sip-user": "sip:alice@host.example.com", "sip-port-param": "sips:host.example.com:5070;transport=tcp", "tel": "tel:+15551234",
-		"urn": "urn:service:sos", "tel-param": "tel:+15551234;phone-context=example.com", "sip-hdr": "sip:alice@10.1.2.3?subject=x"}[s.Val(v, "uri")]
+		"urn": "urn:service:sos", "tel-param": "tel:+15551234;phone-context=example.com", "sip-hdr": "sip:alice@10.1.2.3?subject=x",
+		"sip-upper": "SIP:alice@Host.example.com:5070", "sips-mixed": "Sips:alice@host.example.com"}[s.Val(v, "uri")]
 	t := ""
 	if s.Val(v, "form") == "name-addr" {
 		t = map[string]string{"none": "", "token": "Alice ", "token-noblank": "Alice", "quoted": "\"Alice B\" ", "quoted-pct": "\"50%s %41 %\" ", "two-tokens": "Alice Smith "}[s.Val(v, "display")]
@@ -373,6 +374,12 @@ func c14EvalAddr(v []int) (string, string, bool) {
 	if a.String() != text || sb.String() != text {
 		return "addrspec-roundtrip", fmt.Sprintf("%q re-encoded as %q (String) / %q (Write)", text, a.String(), sb.String()), true
 	}
+	// a scheme written with capitals: whether the decoder regards it as a SIP URI is a don't-care (schemes are
+	// case-insensitive); that it is re-encoded as written is not
+	lower := strings.ToLower(text)
+	if (strings.HasPrefix(lower, "sip:") || strings.HasPrefix(lower, "sips:")) && !(strings.HasPrefix(text, "sip:") || strings.HasPrefix(text, "sips:")) {
+		return "", "", true
+	}
 	if a.IsSIPURI() != (strings.HasPrefix(text, "sip:") || strings.HasPrefix(text, "sips:")) {
 		return "addrspec-accessors", fmt.Sprintf("%q: IsSIPURI=%v", text, a.IsSIPURI()), true
 	}
@@ -433,7 +440,7 @@ func init() {
 		c14Specs[kind] = &EnumSpec{Feats: []Feat{
 			{Name: "form", Vals: []string{"name-addr", "addr-spec"}},
 			{Name: "display", Vals: []string{"none", "token", "token-noblank", "quoted", "quoted-pct", "two-tokens"}},
-			{Name: "uri", Vals: []string{"sip-user", "sip-port-param", "tel", "urn", "tel-param", "sip-hdr"}},
+			{Name: "uri", Vals: []string{"sip-user", "sip-port-param", "tel", "urn", "tel-param", "sip-hdr", "sip-upper", "sips-mixed"}},
 			{Name: "hp1", Vals: hp}, {Name: "hp2", Vals: hp}, {Name: "hp3", Vals: hp},
 		}, Eval: c14EvalNA(kind), Sample: 5000, Seqs: [][]string{{"hp1", "hp2", "hp3"}}}
 		c14Specs[kind].Valid = func(v []int) bool {
@@ -467,7 +474,8 @@ func init() {
 		}
 	}
 	c14Specs["addrspec"] = &EnumSpec{Feats: []Feat{{Name: "uri", Vals: []string{"sip:bob@host.example.com", "tel:+15551234", "tel:+1555;phone-context=%41.example.com", "urn:service:sos",
-		"urn:service:sos.%66ire", "sips:bob:pw@10.1.2.3:5061;transport=tcp;lr?x=y", "sip:host.example.com;user=phone;foo", "http://example.com/%7Euser?q=%s", "sip:%61lice@host.example.com"}}},
+		"urn:service:sos.%66ire", "sips:bob:pw@10.1.2.3:5061;transport=tcp;lr?x=y", "sip:host.example.com;user=phone;foo", "http://example.com/%7Euser?q=%s", "sip:%61lice@host.example.com",
+		"SIP:bob@Host.example.com:5070;transport=TCP", "Sip:bob@host.example.com", "SIPS:bob:pw@10.1.2.3"}}},
 		Eval: c14EvalAddr, Sample: 3}
 	c14Specs["cseq"] = &EnumSpec{Feats: []Feat{{Name: "seq", Vals: []string{"1", "0", "4294967295", "2147483647"}}, {Name: "method", Vals: []string{"INVITE", "ACK", "X-m3th0d!", "invite"}},
 		{Name: "blanks", Vals: []string{"single", "extra"}}}, Eval: c14EvalCSeq, Sample: 10}
